@@ -19,3 +19,19 @@ mod common;
 pub use crate::config::{Committee, Parameters};
 pub use crate::consensus::Consensus;
 pub use crate::messages::{Block, QC, TC};
+
+/// Verification-only re-exports of types that live in private modules.
+#[cfg(hotstuff_verif)]
+pub mod verif {
+    pub use crate::aggregator::Aggregator;
+    pub use crate::consensus::{ConsensusMessage, Round, CHANNEL_CAPACITY};
+    pub use crate::core::verif_core::CoreSnapshot;
+    pub use crate::core::Core;
+    pub use crate::error::{ConsensusError, ConsensusResult};
+    pub use crate::helper::Helper;
+    pub use crate::leader::LeaderElector;
+    pub use crate::mempool::MempoolDriver;
+    pub use crate::messages::{Timeout, Vote};
+    pub use crate::proposer::{Proposer, ProposerMessage};
+    pub use crate::synchronizer::Synchronizer;
+}
